@@ -1,78 +1,73 @@
 /-
-  C14 — VideoFormat2 equality (added by the rev2 review: the class defines `__eq__`, the model has `eq`, and there
-  was no theorem).  `__eq__` compares the channel-specific word and, block by block, the four header bytes and the
-  payload of the nested transport-stream packets; for blocks with an adaptation field the model (and the adapter)
-  answer `NotImplementedError`, so `eq a b = .ok true` says that no such block was met.
+  C14 — VideoFormat2 equality.  `__eq__` compares the channel-specific word and the nested transport streams
+  (`MPEGTS.__eq__`: same number of blocks, pairwise `MPEGPacket.__eq__` — header fields, payload AND adaptation field).
+  Since the C04 extension the blocks are the MPEG family's packet model, so the theorems cover packets with adaptation
+  fields (the former model answered `NotImplementedError` for them).
 -/
 import Acra.Model.Ch11Video
+import Acra.Lemmas.Ch11Video
 import Acra.Props.C04.Video
+import Acra.Props.C14.Mpeg
+import Acra.Props.C14.MpegDecode
 namespace Acra.Props.C14
-open Acra.Py Acra.Model.Ch11Pay Acra.Model.Ch11Pay.Video Acra.Gen.Ch11Video
+open Acra.Py Acra.Model.Ch11Pay.Video Acra.Model.MPEGTS Acra.Gen.Ch11Video Acra.Lemmas.MPEGTS Acra.Lemmas.Ch11Video
 
-/-- the adaptation control bits are read from the fourth header byte -/
-theorem Video_ctrl_take4 (c : Bytes) : ctrl (c.take 4) = ctrl c := by
-  simp [ctrl, byteAt, List.getD_eq_getElem?_getD]
-
-/-- block lists that compare equal re-encode to the same bytes -/
-theorem Video_blocks_eq_sound (as bs : List Bytes) (h : blocksEq as bs = .ok true) :
-    packList chunkPack as = packList chunkPack bs := by
-  induction as generalizing bs with
-  | nil => cases bs <;> simp_all [blocksEq]
-  | cons a as ih =>
-    cases bs with
-    | nil => simp [blocksEq] at h
-    | cons b bs =>
-      simp only [blocksEq] at h
-      split at h
-      · simp at h
-      · rename_i hc
-        split at h
-        · rename_i he
-          simp only [Bool.and_eq_true, beq_iff_eq] at he
-          have hcab : ctrl a = ctrl b := by rw [← Video_ctrl_take4 a, ← Video_ctrl_take4 b, he.1]
-          have hp : chunkPack a = chunkPack b := by
-            simp only [chunkPack, hcab, he.1, he.2]
-          simp only [packList, hp, ih bs h]
-        · simp at h
-
-/-- two VideoFormat2 objects that compare equal encode to the same bytes -/
-theorem Video_eq_sound (a b : State) (h : eq a b = .ok true) : pack a = pack b := by
+/-- two VideoFormat2 objects that compare equal encode to the same bytes (`datastream` is neither compared nor
+    encoded; it is recomputed from the channel-specific word on decode) -/
+theorem Video_eq_sound (a b : State) (h : eq a b = true) : (pack a).2 = (pack b).2 := by
   simp only [eq] at h
   split at h
   · simp at h
   · rename_i hc
-    split at h
-    · simp at h
-    · simp only [bne_iff_ne, ne_eq, Decidable.not_not] at hc
-      simp only [pack, hc, Video_blocks_eq_sound _ _ h]
+    simp only [bne_iff_ne, ne_eq, Decidable.not_not] at hc
+    have := MPEGTS_eq_sound a.mpegts b.mpegts h
+    simp only [pack, hc, this]
+    cases structPack VID_pack_fmt0 [b.channel_specific_word] with
+    | error e => rfl
+    | ok hb =>
+      simp only
+      cases TS.pack b.mpegts with
+      | mk ts r => cases r <;> rfl
 
 /-- non-vacuity: two objects that differ in the (unencoded, uncompared) `datastream` attribute compare equal -/
-example : eq ⟨0x1000, 1, [[0x47, 0x01, 0x00, 0x10] ++ List.replicate 184 0xAB]⟩
-    ⟨0x1000, 0, [[0x47, 0x01, 0x00, 0x10] ++ List.replicate 184 0xAB]⟩ = .ok true := rfl
+example : eq C04.videoExample { C04.videoExample with datastream := 0 } = true := by decide +kernel
 
-/-- the object decoded from `a`'s encoding compares equal to `a` (clean 188-byte transport packets) -/
-theorem Video_eq_decode (a t : State) (h : C04.Video_WF a) :
-    ∃ b, pack a = .ok b ∧ (unpack t b).2 = .ok () ∧ eq a (unpack t b).1 = .ok true := by
-  obtain ⟨b, hp, hu⟩ := C04.Video_roundtrip a t h
+/-- a video payload the class encodes exactly: 32-bit channel-specific word without the intra-packet-header bit, and
+    a canonical transport stream (`TS_canon`, Props/C14/MpegDecode.lean) -/
+def Video_canon (s : State) : Prop :=
+  s.channel_specific_word < 2 ^ 32 ∧ (s.channel_specific_word / 2 ^ IPH_OFFSET) % 2 = 0 ∧ TS_canon s.mpegts
+
+instance (s : State) : Decidable (Video_canon s) := by unfold Video_canon; infer_instance
+
+/-- the object decoded — into any prior state — from `a`'s encoding compares equal to `a` as `pack` left it -/
+theorem Video_eq_decode (a t : State) (h : Video_canon a) :
+    ∃ b, (pack a).2 = .ok b ∧ (unpack t b).2 = .ok () ∧ eq (pack a).1 (unpack t b).1 = true := by
+  obtain ⟨h1, h2, h3⟩ := h
+  have hwf : C04.Video_WF a :=
+    ⟨h1, h2, fun p hp => ⟨(h3 p hp).1.1, (h3 p hp).1.2.1, (h3 p hp).2, (h3 p hp).1.2.2.2.1⟩⟩
+  obtain ⟨b, hp, hu⟩ := C04.Video_roundtrip_exact a t hwf (fun p hp => (h3 p hp).1)
   refine ⟨b, hp, by rw [hu], ?_⟩
   rw [hu]
-  obtain ⟨_, _, h3⟩ := h
-  have hb : ∀ cs : List Bytes, (∀ c ∈ cs, C04.TsClean c) → blocksEq cs cs = .ok true := by
-    intro cs
-    induction cs with
-    | nil => intro _; rfl
-    | cons c cs ih =>
-      intro hc
-      have h1 := (hc c (by simp)).2.2
-      simp only [blocksEq, h1]
-      simp [ih (fun x hx => hc x (by simp [hx]))]
-  simp [eq, hb _ h3]
+  simp only [eq, bne_self_eq_false, Bool.false_eq_true, if_false]
+  -- a transport stream compares equal to itself
+  generalize (pack a).1.mpegts = ts
+  simp only [TS.eq, beq_self_eq_true, Bool.true_and]
+  generalize ts.blocks = l
+  induction l with
+  | nil => rfl
+  | cons x xs ih =>
+    simp only [List.zipWith_cons_cons, List.all_cons, id, Bool.and_eq_true]
+    exact ⟨(Pkt_eq_iff x x).mpr rfl, ih⟩
 
-example : C04.Video_WF ⟨0x1000, 1, [[0x47, 0x01, 0x00, 0x10] ++ List.replicate 184 0xAB]⟩ := by
-  refine ⟨by decide, by decide, ?_⟩
-  intro c hc
-  have : c = [0x47, 0x01, 0x00, 0x10] ++ List.replicate 184 0xAB := by simpa using hc
-  subst this
-  exact ⟨by simp only [List.length_append, List.length_replicate, List.length_cons, List.length_nil], by rfl, by rfl⟩
+/-- witness: the C04 example stream (adaptation only / adaptation + payload / payload only) -/
+example : Video_canon C04.videoExample := by decide +kernel
+
+/-- excluded: a payload-carrying packet that does not fill its 188 bytes (the stuffing comes back as payload) -/
+example :
+    let s : State := { C04.videoExample with mpegts := { blocks :=
+      [ { Pkt.fresh with adaption_ctrl := 3, payload := [1, 2, 3], adaption_field := some { AF.fresh with pcr := [1, 2, 3, 4, 5, 6] } } ] } }
+    ¬ Video_canon s ∧
+    ((pack s).2.toOption.map fun b => eq (pack s).1 (unpack fresh b).1) = some false := by
+  decide +kernel
 
 end Acra.Props.C14
